@@ -58,6 +58,10 @@ func (i *documentIndex) UpdateIndex(oplog ipfslog.Log, _ []ipfslog.Entry) error 
 	i.muIndex.Lock()
 	defer i.muIndex.Unlock()
 
+	// the index is rebuilt from the entries the log holds now: a key whose entries have
+	// left the log (a load with a limit keeps only the most recent ones) must not survive
+	index := map[string][]byte{}
+
 	for idx := range entries {
 		item, err := operation.ParseOperation(entries[size-idx-1])
 		if err != nil {
@@ -71,7 +75,7 @@ func (i *documentIndex) UpdateIndex(oplog ipfslog.Log, _ []ipfslog.Entry) error 
 				}
 
 				handled[opDoc.GetKey()] = struct{}{}
-				i.index[opDoc.GetKey()] = opDoc.GetValue()
+				index[opDoc.GetKey()] = opDoc.GetValue()
 			}
 
 			continue
@@ -88,14 +92,12 @@ func (i *documentIndex) UpdateIndex(oplog ipfslog.Log, _ []ipfslog.Entry) error 
 		}
 
 		handled[*item.GetKey()] = struct{}{}
-		switch item.GetOperation() {
-		case "PUT":
-			i.index[*item.GetKey()] = item.GetValue()
-
-		case "DEL":
-			delete(i.index, *item.GetKey())
+		if item.GetOperation() == "PUT" {
+			index[*item.GetKey()] = item.GetValue()
 		}
 	}
+
+	i.index = index
 
 	return nil
 }
